@@ -25,6 +25,12 @@ def enc(v):
         return ['none']
     if isinstance(v, (bool, np.bool_)):
         return ['b', 1 if v else 0]
+    if isinstance(v, np.timedelta64):
+        if np.isnat(v):
+            return ['nat']
+        unit = np.datetime_data(v.dtype)[0]
+        t = int(v.astype(np.int64))
+        return ['m', unit, t] if abs(t) <= INT_MAX else ['m', unit, str(t)]
     if isinstance(v, (int, np.integer)):
         v = int(v)
         if -INT_MAX <= v <= INT_MAX:
@@ -61,6 +67,8 @@ def enc(v):
         return ['m', unit, t] if abs(t) <= INT_MAX else ['m', unit, str(t)]
     if isinstance(v, datetime.datetime):
         return ['pdt', v.isoformat()]
+    if isinstance(v, datetime.timedelta):
+        return ['m', 'us', int(v / datetime.timedelta(microseconds=1))] if abs(int(v / datetime.timedelta(microseconds=1))) <= INT_MAX else ['m', 'us', str(int(v / datetime.timedelta(microseconds=1)))]
     if isinstance(v, datetime.date):
         # what a datetime64[D] element becomes in an object array; equal to the datetime64 it came from
         return ['d', 'D', v.toordinal() - 719163]
